@@ -23,6 +23,42 @@ func (p Pt) Sum() int64 { return p.X + 1 }
 // Inc has a pointer receiver.
 func (p *Pt) Inc() int64 { p.X++; return p.X }
 
+// Total and Plus have value receivers, Bump a pointer receiver.
+func (p Pt) Total() int64        { return p.X }
+func (p Pt) Plus(n int64) int64  { return p.X + n }
+func (p *Pt) Bump(n int64) int64 { p.X += n; return p.X }
+
+// Named non-struct types with methods: a wrapped receiver must still find them.
+type (
+	Totals  map[string]int64
+	Names   []string
+	Fn      func(int64) int64
+	Celsius float64
+	Ticks   int64
+	Label   string
+)
+
+func (t Totals) Total() int64 {
+	var s int64
+	for _, x := range t {
+		s += x
+	}
+	return s
+}
+func (t Totals) Plus(n int64) int64  { return t.Total() + n }
+func (t Totals) Bump(n int64) int64  { t["k"] += n; return t["k"] }
+func (n Names) Total() int64         { return int64(len(n)) }
+func (n Names) Plus(k int64) int64   { return int64(len(n)) + k }
+func (f Fn) Total() int64            { return f(1) }
+func (f Fn) Plus(n int64) int64      { return f(n) }
+func (c Celsius) Total() int64       { return int64(c) }
+func (c Celsius) Plus(n int64) int64 { return int64(c) + n }
+func (t Ticks) Total() int64         { return int64(t) }
+func (t Ticks) Plus(n int64) int64   { return int64(t) + n }
+func (t *Ticks) Bump(n int64) int64  { *t += Ticks(n); return int64(*t) }
+func (l Label) Total() int64         { return int64(len(l)) }
+func (l Label) Plus(n int64) int64   { return int64(len(l)) + n }
+
 // Box is the provenance container "Go struct with an interface{} field".
 type Box struct {
 	F interface{}
@@ -75,6 +111,15 @@ var values = []*valueSpec{
 	{ID: "gofunc", Desc: "func(x int64) int64{return x+1}", addr: true, mk: func() interface{} { return func(x int64) int64 { return x + 1 } }},
 	{ID: "struct", Desc: "Pt{X:4,F:int64(5)}", mk: func() interface{} { return Pt{X: 4, F: int64(5)} }},
 	{ID: "sptr", Desc: "&Pt{X:4,F:int64(5)}", ref: true, mk: func() interface{} { return &Pt{X: 4, F: int64(5)} }},
+	// named non-struct types with methods (value receivers), and pointers to named types
+	{ID: "nmap", Desc: `Totals{"k":3}`, ref: true, mk: func() interface{} { return Totals{"k": 3} }},
+	{ID: "nslice", Desc: `Names{"a","b"}`, ref: true, mk: func() interface{} { return Names{"a", "b"} }},
+	{ID: "nfunc", Desc: "Fn(func(x int64) int64{return x+1})", addr: true, mk: func() interface{} { return Fn(func(x int64) int64 { return x + 1 }) }},
+	{ID: "nfloat", Desc: "Celsius(2.5)", mk: func() interface{} { return Celsius(2.5) }},
+	{ID: "nint", Desc: "Ticks(6)", mk: func() interface{} { return Ticks(6) }},
+	{ID: "nstring", Desc: `Label("ab")`, mk: func() interface{} { return Label("ab") }},
+	{ID: "nintptr", Desc: "t:=Ticks(6);&t", ref: true, addr: true, mk: func() interface{} { t := Ticks(6); return &t }},
+	{ID: "nmapptr", Desc: `t:=Totals{"k":3};&t`, ref: true, addr: true, mk: func() interface{} { t := Totals{"k": 3}; return &t }},
 }
 
 func valueByID(id string) *valueSpec {
